@@ -5,13 +5,13 @@ CONSTANTS
  Poll = 2
  Ticks = TRUE
  Defect = "none"
- MaxTime = 4
+ MaxTime = 3
  MaxAtt = 2
- ShutTOs <- TOBoth
+ ShutTOs <- TONever
  PCancel = {3}
  Gates = {FALSE}
- DL1 <- DL24
- DL2s <- DLN3
+ DL1 <- DL2
+ DL2s <- DLN
  W3 <- WB
  Res <- R3
 INVARIANTS Safety
